@@ -42,6 +42,8 @@ InFrag(fmt, m) ==
        [] fmt = "afm" ->
             /\ AllBoolean(m) /\ NoFCard(m) /\ NoStar(m) /\ NoAbstract(m) /\ NoSingleCard(m)
             /\ LogicalCtcs(m, AfmOps)
+            /\ \A i \in DOMAIN m.feats : \A k \in DOMAIN m.feats[i].attrs :    \* every AFM attribute has a domain
+                  m.feats[i].attrs[k].dom # "" /\ m.feats[i].attrs[k].val # "n" /\ m.feats[i].attrs[k].nul # "n"
        [] fmt = "fide" ->
             /\ AllBoolean(m) /\ NoFCard(m) /\ NoStar(m) /\ NoAttrs(m) /\ LogicalCtcs(m, FideOps)
             /\ \A f \in Names(m) :
